@@ -484,6 +484,29 @@ theorem rb_ptr_insert_duplicate (st : Store) (a : Shape) (root : Nat) (b : Shape
       Repr st' (.node a root b) (some root) ∧ absTree st' (.node a root b) = absTree st (.node a root b) :=
   insert_duplicate hrep hnd hnode hr hdup
 
+/-- NEW KEY, BLACK PARENT (the path of `insert` that needs no rebalancing): for a key the tree does not hold the descent ends
+    at a record `p` of the tree with a `NULL` child pointer on the key's side; if `p` is black, `insert` returns the unchanged
+    root, the store lays out the tree with the record hung there (`attachShape`), exactly the records `node` (red leaf whose
+    parent is `p`) and `p` (one new child pointer) were written. With a red `p` the function goes on into `rebalance`, whose
+    case analysis is proved on the inductive tree (`rb_insert`) and tied to the pointer code record by record. -/
+theorem rb_ptr_insert_black_parent (st : Store) (a : Shape) (root : Nat) (b : Shape) (node : Nat) (nn : Node)
+    (hrep : Repr st (.node a root b) (some root)) (hnd : (Shape.node a root b).ids.Nodup)
+    (hnode : node ∉ (Shape.node a root b).ids) (hr : rd st node = some nn)
+    (hnew : RedBlack.Tree.lookup nn.key (absTree st (.node a root b)) = false) :
+    ∃ p pn, p ∈ (Shape.node a root b).ids ∧ rd st p = some pn ∧ nn.key ≠ pn.key ∧
+      (if nn.key > pn.key then pn.large = none else pn.small = none) ∧
+      (pn.color = .black → ∃ st', insert st (some root) node = some (st', some root) ∧
+        Repr st' (attachShape st nn.key node (.node a root b)) (some root) ∧
+        (∀ j, j ≠ p → j ≠ node → rd st' j = rd st j) ∧
+        rd st' node = some { nn with color := .red, small := none, large := none, parent := some p } ∧
+        rd st' p = some (if nn.key > pn.key then { pn with large := some node } else { pn with small := some node })) :=
+  insert_black_parent hrep hnd hnode hr hnew
+
+-- non-vacuity: key 4 offered to the tree {5(black): 3(black), 8(black)} goes under the black 3 as its large child
+example : (insert (#[⟨5, .black, none, some 1, some 2⟩, ⟨3, .black, some 0, none, none⟩, ⟨8, .black, some 0, none, none⟩,
+      ⟨4, .black, none, some 7, some 9⟩] : Store) (some 0) 3).map (fun r => (r.2, r.1.toList.map (fun nd => (nd.key, nd.small, nd.large))))
+    = some (some 0, [(5, some 1, some 2), (3, none, some 3), (8, none, none), (4, none, none)]) := by decide
+
 /-- the first record becomes the black root -/
 theorem rb_ptr_insert_first (st : Store) (node : Nat) (nn : Node) (hr : rd st node = some nn) :
     ∃ st', insert st none node = some (st', some node) ∧ (∀ j, j ≠ node → rd st' j = rd st j) ∧
